@@ -314,3 +314,14 @@ package main
 //@   before call IntVar: assert [int-flags-bound-to-their-fields]
 //@          (arg2 == "connections" ==> arg1 == &opts.connections && arg3 == 10000) && (arg2 == "max-connections" ==> arg1 == &opts.maxConnections && arg3 == 0)
 //@          && (arg2 == "redirects" ==> arg1 == &opts.redirects && arg3 == 10) && (arg2 == "connections" || arg2 == "max-connections" || arg2 == "redirects")
+
+// multiCloser.Close: every input file is closed, also after one of them fails to close.
+//@ func (multiCloser).Close
+//@   property C13
+//@   pragma frame off
+//@   ghost closes int = 0
+//@   at call Close: ghost closes = closes + 1
+//@   ensures [every-file-closed] closes == len(mc)
+//@   loop 1
+//@     invariant -1 <= rangeindex && rangeindex < len(mc) && closes == rangeindex + 1 && (cap(errs) > 0 ==> fresh(errs))
+//@     decreases len(mc) - rangeindex
